@@ -1083,6 +1083,8 @@ impl Compiler {
                         name: name_idx,
                     });
                 }
+                // The operand is converted to a number first: "" ++ is 0 then 1, never "1"
+                self.builder.emit(Op::Plus { dst, src: dst });
 
                 if !update.prefix {
                     // Postfix: save original value
@@ -1164,8 +1166,9 @@ impl Compiler {
 
                 let key_info = self.get_member_key_info(&member.property)?;
 
-                // Load current value
+                // Load current value, converted to a number
                 self.emit_get_property(dst, obj_reg, &key_info)?;
+                self.builder.emit(Op::Plus { dst, src: dst });
 
                 let one = self.builder.alloc_register()?;
                 self.builder.emit(Op::LoadInt { dst: one, value: 1 });
